@@ -256,3 +256,69 @@ func verifRealize(r *NetworkRule, pattern string, extraOpts ...string) *NetworkR
 
 // verifRealised collects the rule texts used by a native replay (printed by the replay test).
 var verifRealised []string
+
+// verifSymRule builds a network rule whose parsed fields are symbolic: the
+// exception flag, both option words, both type masks, and the *lengths* of
+// every value list (0..maxList, contents are fixed placeholders, sorted).
+// The pointer-or-nil choice of the two client sets is a two-way choice each.
+func verifSymRule(p string, maxList int) *NetworkRule {
+	r := &NetworkRule{}
+	r.Whitelist = verifBool(p + ".whitelist")
+	r.enabledOptions = NetworkRuleOption(verifU64(p + ".enabled"))
+	r.disabledOptions = NetworkRuleOption(verifU64(p + ".disabled"))
+	r.permittedRequestTypes = RequestType(verifU32(p + ".ptypes"))
+	r.restrictedRequestTypes = RequestType(verifU32(p + ".rtypes"))
+	r.permittedDomains = verifSymLen(verifNames("pd", ".com", maxList), p+".npd")
+	r.restrictedDomains = verifSymLen(verifNames("rd", ".com", maxList), p+".nrd")
+	r.denyAllowDomains = verifSymLen(verifNames("da", ".com", maxList), p+".nda")
+	r.permittedClientTags = verifSymLen(verifNames("pt", "", maxList), p+".npt")
+	r.restrictedClientTags = verifSymLen(verifNames("rt", "", maxList), p+".nrt")
+	r.permittedDNSTypes = verifSymLen(verifRRs(maxList, 0), p+".npq")
+	r.restrictedDNSTypes = verifSymLen(verifRRs(maxList, 3), p+".nrq")
+	if verifBool(p + ".hasPermClients") {
+		c := &clients{hosts: verifSymLen(verifNames("pc", "", maxList), p+".npc")}
+		verifAssume(len(c.hosts) > 0)
+		r.permittedClients = c
+	}
+	if verifBool(p + ".hasRestClients") {
+		c := &clients{hosts: verifSymLen(verifNames("rc", "", maxList), p+".nrc")}
+		verifAssume(len(c.hosts) > 0)
+		r.restrictedClients = c
+	}
+	verifAssume(verifInvOptions(r))
+	return r
+}
+
+func verifNames(prefix, suffix string, n int) []string {
+	out := make([]string, n)
+	for i := range out {
+		out[i] = vn(prefix, i, suffix)
+	}
+	return out
+}
+
+var verifRRMenu = []RRType{1, 28, 5, 15, 16, 12, 33, 65, 64, 2}
+
+func verifRRs(n, from int) []RRType {
+	out := make([]RRType, n)
+	for i := range out {
+		out[i] = verifRRMenu[(from+i)%len(verifRRMenu)]
+	}
+	return out
+}
+
+// verifRequestTypesOK: the type masks a parser can produce (document only via document-level options).
+func verifRequestTypesOK(r *NetworkRule) bool {
+	const all = TypeDocument | TypeSubdocument | TypeScript | TypeStylesheet | TypeObject | TypeImage |
+		TypeXmlhttprequest | TypeMedia | TypeFont | TypeWebsocket | TypePing | TypeOther
+	if r.permittedRequestTypes&^all != 0 || r.restrictedRequestTypes&^all != 0 {
+		return false
+	}
+	if r.restrictedRequestTypes&TypeDocument != 0 {
+		return false
+	}
+	if r.enabledOptions&verifDocumentLevel == 0 && r.permittedRequestTypes&TypeDocument != 0 {
+		return false
+	}
+	return true
+}
